@@ -100,7 +100,7 @@ def describe(c, k, t, with_traces=True):
     return rec
 
 
-def shrink_case(c, k, t, max_rounds=30):
+def shrink_case(c, k, t, max_rounds=14):
     """Minimise the program of a failing case keeping verdict code (and machine status)."""
     want = (t[0], t[5] if t[0] == 4 else 0)
 
